@@ -263,7 +263,7 @@ pub fn run(tier: Tier, replay: Option<String>) -> i32 {
                         }
                         for policy in 0..3u8 {
                             // the 200 kB shape is expensive: default schedules + bound 1 only
-                            let bound = if shape == 2 { 1 } else if peers >= 3 { 2 } else { tier.pick(2, 3) };
+                            let bound = if shape == 2 { tier.pick(1, 2) } else if peers >= 3 { 2 } else if peers == 2 && wmode == 0 { tier.pick(3, 3) } else { tier.pick(2, 3) };
                             if shape == 2 && (policy != 0 || early != 0) && tier == Tier::Quick {
                                 continue;
                             }
@@ -273,7 +273,7 @@ pub fn run(tier: Tier, replay: Option<String>) -> i32 {
                                 format!("C10/{}/{}p/shape{}/w{}/early{}/policy{}", ty.name(), peers, shape, wmode, early, policy),
                                 pj(&pr),
                                 bound,
-                                tier.pick(40_000, 1_000_000),
+                                tier.pick(300_000, 3_000_000),
                                 move || scenario(&pr2),
                             ));
                         }
